@@ -226,6 +226,11 @@ def build(kind, with_sim=True):
     elif kind == 'seq':
         rs, inc = hw.wire('reset'), hw.wire('inc')
         q, co, n = hw.wire('q', 3), hw.wire('co'), hw.wire('n')
+        # a register of the top level that shares its module name (Reg3E) with the one inside the child and is created first:
+        # from the top the shared module is reached through this instance, from the child through the child's own
+        pre_d = hw.wire('pre_d', 3)
+        py4hw.Constant(hw, 'pre_k', 6, pre_d)
+        py4hw.Reg(hw, 'pre', pre_d, hw.wire('pre_q', 3), enable=inc)
         c.child = py4hw.ModuloCounter(hw, 'mc', 5, rs, inc, q, co)
         c.prim = py4hw.Not(hw, 'not_top', co, n)
         # a memory that the simulation steps fill with non-zero words
